@@ -14,6 +14,8 @@ import GPy.C06.RTFinal
 import GPy.C06.IntLitCtx
 import GPy.C06.RTSound
 import GPy.C06.Stmt
+import GPy.C06.Lists
+import GPy.C06.RulePins
 namespace GPy.C06
 open Spec
 
@@ -248,5 +250,109 @@ theorem stmt_try_without_handler_rejected :
     (parseFileToks k02Toks).isNone = true ∧ (parseFileToksWith { tryHandlers := false } k02Toks).isSome = true := by decide +kernel
 theorem stmt_bare_star_rejected :
     (parseFileToks k03Toks).isNone = true ∧ (parseFileToksWith { bareStar := false } k03Toks).isSome = true := by decide +kernel
+
+/-! ### the enlarged grammar (GPy.C06.X, round ext2): comma-separated lists and their trailing commas
+
+`X.listLoop` is the ONE loop `(',' item)* [',']` with which X.lean parses every list of the grammar (tuple / list / set
+displays, dict items, subscript lists, testlist, testlist_star_expr, exprlist).  The theorems below are about that loop
+(any item parser that round-trips on the items; any number of items; with and without trailing comma) and about the
+semantic actions that read the trailing-comma flag.  The parser functions of the big mutual block of X.lean
+(arglist, varargslist, comprehension clauses, …) are tied by the correspondence run and by the kernel evaluations at the end. -/
+
+open X in
+/-- the list loop returns exactly the rendered items and whether a trailing comma was written, for EVERY item parser that
+round-trips on the items of the list in front of the continuations `Stop` (which must contain everything that starts with a comma) -/
+theorem list_loop_roundtrip {α : Type} (item : List Tok → X.R α) (starts : List Tok → Bool) (rItem : α → List Tok)
+    (Stop : List Tok → Prop) (hcomma : ∀ r, Stop (.p .comma :: r)) (as : List α) (tc : Bool) (rest : List Tok) (f : Nat)
+    (hitem : ∀ a ∈ as, ∀ r, Stop r → item (rItem a ++ r) = some (a, r))
+    (hstart : ∀ a ∈ as, ∀ r, starts (rItem a ++ r) = true)
+    (hstop : Stop rest) (hs : starts rest = false) (hnc : ∀ r, rest ≠ .p .comma :: r) (hf : as.length + 1 ≤ f) :
+    listLoop item starts f (renderMore rItem as tc ++ rest) = some (as, tc, rest) :=
+  listLoop_roundtrip item starts rItem Stop hcomma as tc rest f hitem hstart hstop hs hnc hf
+
+/-- instance without hypotheses on the items: lists of NAMEs (`names` of global / nonlocal, plain parameter lists) -/
+theorem list_roundtrip_names (ns : List String) (tc : Bool) (rest : List Tok) (hs : X.startsName rest = false)
+    (hnc : ∀ r, rest ≠ .p .comma :: r) :
+    X.listLoop X.nameItem X.startsName (ns.length + 1) (X.renderMore (fun s => [Tok.name s]) ns tc ++ rest) = some (ns, tc, rest) :=
+  X.names_roundtrip ns tc rest hs hnc
+
+example : X.listLoop X.nameItem X.startsName 3 ([.p .comma, .name "a", .p .comma, .name "b", .p .comma] ++ [.newline]) = some (["a", "b"], true, [.newline]) :=
+  list_roundtrip_names ["a", "b"] true [.newline] rfl (by intro r h; cases h)
+
+/-- instance over the PROVED expression fragment: the items are arbitrary well-formed `Expr` trees in arbitrary layouts,
+parsed by the cascade parser `parseAt Generated.table N 0` (round trip = `parse_render_roundtrip_at_level`).
+`_partial`: the FIRST-set fact "the spelling of an item begins with a token that can begin a `test`" (the one-token
+lookahead after a comma) is a hypothesis per item (`hfirst`), not derived from the printer. -/
+theorem list_roundtrip_exprs_partial (es : List Expr) (hwf : ∀ e ∈ es, WF e = true) (ℓ : Layout) (p : List Nat) (tc : Bool)
+    (rest : List Tok) (N f : Nat) (hN : ∀ e ∈ es, 16 * (rAt ℓ p 0 e).length + 14 ≤ N)
+    (hfirst : ∀ e ∈ es, ∀ r, X.startsTest (rAt ℓ p 0 e ++ r) = true)
+    (hrest : RT.Follow 0 rest) (hs : X.startsTest rest = false) (hnc : ∀ r, rest ≠ .p .comma :: r) (hf : es.length + 1 ≤ f) :
+    X.listLoop (fun ts => parseAt Generated.table N 0 ts) X.startsTest f (X.renderMore (rAt ℓ p 0) es tc ++ rest) = some (es, tc, rest) :=
+  X.listLoop_roundtrip _ _ _ (RT.Follow 0) RT.follow_comma es tc rest f
+    (fun e he r hr => parse_render_roundtrip_at_level e (hwf e he) ℓ p 0 (by omega) r hr N (by have := hN e he; omega))
+    hfirst hrest hs hnc hf
+
+/-- **classification of the trailing comma** by the semantic actions of the grammar (`tupleOrExpr` = action of testlist,
+testlist_star_expr, exprlist, the parenthesised tuple, the yield value, for / comprehension targets;
+`X.subscriptOf` = actions of subscripts + subscriptlist + trailer):
+irrelevant for 0 or ≥ 2 items of a tuple-like list and for ≥ 2 subscripts; SIGNIFICANT for exactly one item: `a,` is the
+1-tuple and `a` the item; `x[a,]` is Index(Tuple [a]) and `x[a]` Index(a); `x[a:b,]` is ExtSlice [Slice] and `x[a:b]` the Slice.
+(List / set / dict displays, argument lists and parameter lists have no action reading the flag: `X.pAtom` / `X.pArgs` /
+`X.pParams` discard it or reject the comma; see the kernel evaluations below and the xlist cases of the correspondence run.) -/
+theorem trailing_comma_irrelevant_or_significant :
+    (∀ es : List X.XE, es.length ≠ 1 → X.tupleOrExpr es true = X.tupleOrExpr es false) ∧
+    (∀ e : X.XE, X.tupleOrExpr [e] false = e ∧ X.tupleOrExpr [e] true = .tuple [e]) ∧
+    (∀ (a b : X.XSlice) (rest : List X.XSlice), X.subscriptOf (a :: b :: rest) true = X.subscriptOf (a :: b :: rest) false) ∧
+    (∀ e : X.XE, X.subscriptOf [.index e] false = .index e ∧ X.subscriptOf [.index e] true = .index (.tuple [e])) ∧
+    (∀ lo up st : Option X.XE, X.subscriptOf [.slice lo up st] false = .slice lo up st ∧
+      X.subscriptOf [.slice lo up st] true = .ext [.slice lo up st]) :=
+  ⟨X.tupleOrExpr_comma_irrelevant, X.tupleOrExpr_comma_significant, X.subscript_comma_irrelevant, X.subscript_comma_index, X.subscript_comma_slice⟩
+
+/-- a subscript list of ≥ 2 items is the ExtSlice of exactly its items when a Slice is among them, else Index(Tuple) -/
+theorem subscript_list_tree (a b : X.XSlice) (rest : List X.XSlice) (tc : Bool) :
+    (X.allIndex (a :: b :: rest) = none → X.subscriptOf (a :: b :: rest) tc = .ext (a :: b :: rest)) ∧
+    (∀ es, X.allIndex (a :: b :: rest) = some es → X.subscriptOf (a :: b :: rest) tc = .index (.tuple es)) :=
+  ⟨X.subscript_ext a b rest tc, fun es h => X.subscript_all_index a b rest tc es h⟩
+
+/-! kernel evaluations of the token-level parser of X.lean at the witnesses of the classification (tests, not ∀-theorems) -/
+
+def evToks (ts : List Tok) : List Tok := .start .eval :: ts ++ [.newline, .endmarker]
+
+/-- `x[a:b,]` → ExtSlice [Slice a b], `x[a:b]` → Slice a b, `x[a,]` → Index(Tuple [a]) (the seed C06-b breaks the first) -/
+theorem x_subscript_trailing_comma_witness :
+    (match X.parseEvalToksWith {} (evToks [.name "x", .p .lsqb, .name "a", .p .colon, .name "b", .p .comma, .p .rsqb]) with
+      | some (.sub (.name "x") (.ext [.slice (some (.name "a")) (some (.name "b")) none])) => true | _ => false) = true ∧
+    (match X.parseEvalToksWith {} (evToks [.name "x", .p .lsqb, .name "a", .p .colon, .name "b", .p .rsqb]) with
+      | some (.sub (.name "x") (.slice (some (.name "a")) (some (.name "b")) none)) => true | _ => false) = true ∧
+    (match X.parseEvalToksWith {} (evToks [.name "x", .p .lsqb, .name "a", .p .comma, .p .rsqb]) with
+      | some (.sub (.name "x") (.index (.tuple [.name "a"]))) => true | _ => false) = true := by decide +kernel
+
+/-- argument and parameter lists: `f(a,)` = `f(a)`; no trailing comma after `*s` / `**w` (3.4) -/
+theorem x_arglist_trailing_comma_witness :
+    (match X.parseEvalToksWith {} (evToks [.name "f", .p .lpar, .name "a", .p .comma, .p .rpar]) with
+      | some (.call (.name "f") [.name "a"] [] none none) => true | _ => false) = true ∧
+    (X.parseEvalToksWith {} (evToks [.name "f", .p .lpar, .p .star, .name "s", .p .comma, .p .rpar])).isNone = true ∧
+    (X.parseEvalToksWith {} (evToks [.name "f", .p .lpar, .p .starstar, .name "w", .p .comma, .p .rpar])).isNone = true ∧
+    (X.parseEvalToksWith {} (evToks [.k .lambda_, .name "a", .p .comma, .p .colon, .num (.int 0)])).isSome = true ∧
+    (X.parseEvalToksWith {} (evToks [.k .lambda_, .p .star, .name "s", .p .comma, .p .colon, .num (.int 0)])).isNone = true := by decide +kernel
+
+/-- `f(a for a in b, c)` is rejected with the repaired check (fix bec25ac) and was accepted without it -/
+theorem x_genexp_not_sole_argument_rejected :
+    (X.parseEvalToksWith {} (evToks [.name "f", .p .lpar, .name "a", .k .for_, .name "a", .k .in_, .name "b", .p .comma, .name "c", .p .rpar])).isNone = true ∧
+    (X.parseEvalToksWith { genexpSole := false } (evToks [.name "f", .p .lpar, .name "a", .k .for_, .name "a", .k .in_, .name "b", .p .comma, .name "c", .p .rpar])).isSome = true := by decide +kernel
+
+/-! ### the rule pins (GPy.C06.RulePins): shape and action fingerprint of every modelled rule of parser/grammar.y
+(regenerated into GeneratedRules.lean on every run, y.go checked to agree) equal the values the Lean grammars were
+written against; one theorem per nonterminal there, the ones the list layer depends on restated here -/
+
+theorem rule_subscriptlist_pinned : GeneratedRules.lookup "subscriptlist" = some RulePins.expected_subscriptlist := RulePins.rule_subscriptlist_pinned
+theorem rule_subscripts_pinned : GeneratedRules.lookup "subscripts" = some RulePins.expected_subscripts := RulePins.rule_subscripts_pinned
+theorem rule_subscript_pinned : GeneratedRules.lookup "subscript" = some RulePins.expected_subscript := RulePins.rule_subscript_pinned
+theorem rule_trailer_pinned : GeneratedRules.lookup "trailer" = some RulePins.expected_trailer := RulePins.rule_trailer_pinned
+theorem rule_arglist_pinned : GeneratedRules.lookup "arglist" = some RulePins.expected_arglist := RulePins.rule_arglist_pinned
+theorem rule_testlist_pinned : GeneratedRules.lookup "testlist" = some RulePins.expected_testlist := RulePins.rule_testlist_pinned
+theorem rule_atom_pinned : GeneratedRules.lookup "atom" = some RulePins.expected_atom := RulePins.rule_atom_pinned
+theorem rule_optional_comma_pinned : GeneratedRules.lookup "optional_comma" = some RulePins.expected_optional_comma := RulePins.rule_optional_comma_pinned
+theorem rules_modelled_pinned : GeneratedRules.modelled = RulePins.expected.map (·.lhs) := RulePins.modelled_pinned
 
 end GPy.C06
